@@ -101,6 +101,7 @@ DEFAULT_PROFILE: dict[str, Any] = {
     "multi_body_multipart": False,  # C03 finding: multipart next to another media type loses its boundary
     "multi_body_array": False,      # C03 finding: isinstance(body, list[...]) in the multi-body dispatch raises TypeError
     "const_float": True,            # C11 finding when False: Literal[1.5] is not a valid type
+    "odd_media_pairs": False,       # binary under text/* or JSON, integer under text/*: accepted by the generator
     "component_unions": False,      # top-level union / array component schemas (forward references inside them)
     "multipart_const": True,        # was a C06 crash (fixed); switch kept for the regression replay
 }
@@ -228,15 +229,15 @@ def union_ir(draw, prof, comp_names, depth):
         if any(m["k"] == "bool" for m in members) and any(_is_int_enum(m) or m["k"] == "ref" for m in members):
             members = [m for m in members if m["k"] != "bool"]
     objs = [m for m in members if m["k"] == "object" and m.get("props")]
-    if len(objs) >= 2 and draw(st.booleans()):
+    if len(objs) >= 2 and draw(st.integers(0, 3)) > 0:
         first = objs[0]
         for other in objs[1:]:
             for i, p in enumerate(other["props"]):
-                if i < len(first["props"]) and draw(st.booleans()):
+                if i < len(first["props"]) and (i == 0 or draw(st.booleans())):
                     p[0] = first["props"][i][0]
-                    if draw(st.booleans()):
+                    if draw(st.integers(0, 3)) > 0:
                         # same key, different JSON type: the decoder must fall through the first branch cleanly
-                        first["props"][i][1] = {"k": draw(st.sampled_from(["uuid", "date", "datetime"]))}
+                        first["props"][i][1] = {"k": draw(st.sampled_from(["uuid", "uuid", "date", "datetime"]))}
                         first["props"][i][2] = True
                         p[1] = {"k": draw(st.sampled_from(["int", "bool", "num"]))}
                         p[2] = True
@@ -544,9 +545,14 @@ def responses_ir(draw, prof, comp_names):
             mt = draw(st.sampled_from(["application/json", "application/json", "application/problem+json"]))
             sch = draw(schema_ir(profile(**{**prof, "const": False}), comp_names, 1, "response"))
             sch.pop("nullable", None)
+            if prof.get("odd_media_pairs") and draw(st.integers(0, 11)) == 0:
+                sch = {"k": "binary"}
             out.append([s, [mt, sch]])
         elif r == 8 and prof["text_responses"]:
-            out.append([s, [draw(st.sampled_from(["text/plain", "text/html"])), {"k": "str"}]])
+            # mostly the documented pairing (text -> string); sometimes a schema that does not fit the media type, which
+            # the generator accepts too (the decoded value is then not asserted, but it must not disturb other responses)
+            tsch = draw(st.sampled_from([{"k": "str"}, {"k": "str"}, {"k": "str"}, {"k": "binary"}, {"k": "int"}])) if prof.get("odd_media_pairs") else {"k": "str"}
+            out.append([s, [draw(st.sampled_from(["text/plain", "text/html", "text/csv"])), tsch]])
         elif prof["octet"]:
             out.append([s, ["application/octet-stream", {"k": "binary"}]])
         else:
